@@ -194,6 +194,56 @@ def byte_table_cases(words):
     return cases
 
 
+NULL_ALPHA = sorted(set([0x6e, 0x4e, 0x75, 0x55, 0x6c, 0x4c] +
+                       [c ^ 0x80 for c in (0x6e, 0x4e, 0x75, 0x55, 0x6c, 0x4c)] + [0xff, 0x80, 0x01]))
+
+
+def null_table_cases(full):
+    """byte table for ARRAY ELEMENTS around the word NULL: the model says NULL iff the bare,
+    trimmed element is ASCII-case-insensitively `null`.  Words: every position drawn from the
+    four look-alikes of its letter (n N 0xEE 0xCE, ...: 256 words), every single-byte substitution
+    of null/NULL/nUlL by each byte of the alphabet {n N u U l L, the same with bit 7 set, 0xff 0x80
+    0x01}, the 3-byte words with one letter dropped and 5-byte words with one alphabet byte
+    inserted; each alone, between other elements, with blanks, quoted, and with a dimension prefix.
+    Thorough tier: additionally ALL 15^4 four-byte words over the alphabet, alone."""
+    fam = [[0x6e, 0x4e, 0xee, 0xce], [0x75, 0x55, 0xf5, 0xd5], [0x6c, 0x4c, 0xec, 0xcc], [0x6c, 0x4c, 0xec, 0xcc]]
+    words = set()
+    for a in fam[0]:
+        for b in fam[1]:
+            for c in fam[2]:
+                for d in fam[3]:
+                    words.add(bytes([a, b, c, d]))
+    for base in (b"null", b"NULL", b"nUlL"):
+        for i in range(4):
+            for x in NULL_ALPHA:
+                words.add(base[:i] + bytes([x]) + base[i + 1:])
+            words.add(base[:i] + base[i + 1:])                      # length 3
+        for i in range(5):
+            for x in NULL_ALPHA:
+                words.add(base[:i] + bytes([x]) + base[i:])          # length 5
+    for w in list(words):
+        if len(w) == 4 and len(words) < 4000:
+            words.add(w[:3]); words.add(w[1:])
+    cases = []
+    ws = sorted(words)
+    for part in vf.chunks(ws, 40):
+        ops = []
+        for w in part:
+            for t in (b"{" + w + b"}", b"{a," + w + b",b}", b"{ " + w + b"\t}", b'{"' + w + b'"}',
+                      b"{" + w + b"," + w + b"}", b"[1:1]={" + w + b"}", b"[0:2]={x, " + w + b" ,NULL}"):
+                ops.append("arr " + vf.hexs(t))
+        cases.append(ops)
+    if full:
+        allw = []
+        for a in NULL_ALPHA:
+            for b in NULL_ALPHA:
+                for c in NULL_ALPHA:
+                    for d in NULL_ALPHA:
+                        allw.append("arr " + vf.hexs(b"{" + bytes([a, b, c, d]) + b"}"))
+        cases += [list(p) for p in vf.chunks(allw, 500)]
+    return cases
+
+
 def render_elem(rng, e):
     if e is None:
         return rng.choice([b"NULL", b"null", b"Null", b"nULL", b"nuLl"])
@@ -327,7 +377,10 @@ def run(ck):
         "for all entry points, at sizes around the needed length (real and schema-cut-to-127), tiny and "
         "generous; byte table (exhaustive, every tier): every byte 1..255 alone and at first/middle/last "
         "position of a plain name and inside qualified names, all ordered pairs of 42 interesting bytes in "
-        "three shapes; array: one case = a list rendered by the "
+        "three shapes; NULL-word table for array elements (look-alike bytes with bit 7 / bit 5 flipped at "
+        "every position, lengths 3..5, alone / between elements / blanks / quoted / dimension prefix; all "
+        "15^4 words in thorough); every quoting op also at dstlen 0, 1, 2 with the destination flush against "
+        "a guard page; array: one case = a list rendered by the "
         "generator (quoted/bare/escaped/NULL/blanks/dimension prefix) + every truncation + 1-byte "
         "substitutions at every position + insertions; kw: every word of the .g list and neighbours. "
         "evaluations = op lines run through implementation and model; distinct_nontrivial = distinct op "
@@ -415,6 +468,9 @@ def run(ck):
         ops, lst, t = arr_case(rng, full=not ck.quick())
         acases.append(ops)
         rendered.append((ops[0], lst))
+    ncases = null_table_cases(full=not ck.quick())
+    hist["null_table_ops"] = sum(len(c) for c in ncases)
+    acases += ncases
     hist["array_texts"] = len(acases)
     hist["array_ops"] = sum(len(c) for c in acases)
     stream("array", acases, chunk=40)
